@@ -148,6 +148,11 @@ func C04(p *load.Program, run *report.Run) {
 					"(" + load.Module + "/ot.Label).Equal", load.Module + "/ot.EncryptCOCiphertexts":
 					return true
 				}
+				// a function that resolves a label against a wire, accepted by the three-case evaluation:
+				// its results are the output bit and a verdict
+				if labelDecider(callee).ok {
+					return true
+				}
 				// a helper of the module that itself lets wires reach its results only through those
 				// declassifiers (a decode loop moved into a function) declassifies like them
 				return helperDeclassifies(callee)
